@@ -79,6 +79,18 @@ CLAIMS = {
         note="Trusted: C02 obligations; asyncio's no-preemption-between-awaits.",
         ref="DESIGN.md section 5 / C10",
     ),
+    "C08": dict(
+        technique="static analysis: regex syntax-tree rules (re._parser), interval analysis seeded by the grammar's digit bounds, symbolic layout tables of ACE/ACL/SD vs MS-DTYP reference, constant folding of the target SD",
+        text="Decides: the SID grammar is anchored at both absolute ends, ASCII-digit only, S-<digit>-<digits>(-<digits>){1,15}; on every path revision/count fit a byte, authority < 2^48, sub authorities < 2^32, every to_bytes within capacity, rejections are ValueError; SID/ACE/ACL/self-relative SD layouts equal the MS-DTYP reference with offsets = actual positions and order Sacl, Dacl, Owner, Group; target SD constants. Does not decide: injectivity / agreement with an independent parser as numerical facts.",
+        note="Trusted: Python re semantics for the constructs found; MS-DTYP tables transcribed in rules/c08.py.",
+        ref="DESIGN.md section 5 / C08",
+    ),
+    "C17": dict(
+        technique="static analysis: twin normalisation/diff of the sync and async flavours, role-position checks, constant folding of conversation constants against reference UUIDs, plus shared layout/relay/sealing obligations",
+        text="Decides: sync/async twins (GetKey conversation, bind, request, API pairs, signatures); unprotect requests exactly the blob's (root key id, L0, L1, L2) with the SD from its descriptor, protect requests (-1,-1,-1) with the caller's root key id, GetKey receives them in role-correct positions and serialises per the NDR64 reference; conversation constants (EPM leg unauthenticated opnum 3 with the ISD_KEY tower, second leg on the mapped port with contexts {0: ISD_KEY/NDR64, 1: bind-time features}, GetKey opnum 0 with the PCONTEXT|END verification trailer); PKT_PRIVACY sealing, reply trimming, alter_context contexts. Does not decide: that results decrypt correctly for every key position.",
+        note="Trusted: UUID/version constants transcribed from MS-GKDI 1.9, C706, MS-RPCE.",
+        ref="DESIGN.md section 5 / C17",
+    ),
 }
 
 NA_REASON = "check not built yet in this session (design in DESIGN.md section 5); not claimed until its engine passes the self-test"
